@@ -3,6 +3,7 @@
 -/
 import GeonumModel.Lemmas.GeonumAdd
 import GeonumModel.Spec.RealWitness
+import GeonumModel.Lemmas.ExactAdd
 
 set_option linter.unusedSectionVars false
 set_option linter.unusedVariables false
@@ -66,10 +67,24 @@ theorem opposite_blades {a b : Geonum F} (ha : a.angle.Inv) (hb : b.angle.Inv) (
 
 end S
 
-/-! PARTIAL: the general-regime bound `ba+bb ≤ blade ≤ ba+bb+4` (=+4 only with remainder 0) is true in exact arithmetic but
-    FALSE of the float code for blade sums above ~1e5 (known finding C14-large-blade-turn); it is not stated here as a
-    theorem. Explored by `oracle.C14.policy` with the known-finding signature. Equality of blades for a+b and b+a in the
-    general branch follows from commutativity of the two float sums and evenness of cos (not yet proved). -/
+/-! ### E-tier: the general regime in exact arithmetic -/
+section E
+open GeonumModel.Exact
+
+/-- (E) in every case that is neither "identical angles" nor "a half turn apart", the sum's blade count is at least the sum of
+    the operands' blade counts and at most one full turn above it — exactly one full turn only with remainder 0; so blade
+    history is never lost.  (Exact arithmetic; the float code violates the upper bound for blade sums above ~1e5 because it
+    forms `blade_sum·π/2` in f64 — known finding C14-large-blade-turn.) -/
+theorem general_policy_real {a b : Geonum ℝ} (ha : a.angle.Inv) (hb : b.angle.Inv)
+    (h1 : sameAngle a b = false) (h2 : oppositeAngle a b = false) (hcb : a.angle.blade + b.angle.blade ≤ 2 ^ 40) :
+    a.angle.blade + b.angle.blade ≤ (a.add b).angle.blade ∧ (a.add b).angle.blade ≤ a.angle.blade + b.angle.blade + 4 ∧
+    ((a.add b).angle.blade = a.angle.blade + b.angle.blade + 4 → (a.add b).angle.rem = 0) :=
+  general_blade_real ha hb h1 h2 hcb
+
+end E
+
+/-! PARTIAL: equality of blades for a+b and b+a in the general branch of the FLOAT code (commutativity of the two float sums and
+    evenness of cos) is not proved; explored by `oracle.C14.policy`. -/
 
 example : sameAngle (⟨(1:ℝ), ⟨(0.5:ℝ), 3⟩⟩ : Geonum ℝ) ⟨2, ⟨0.5, 3⟩⟩ = true := by
   unfold sameAngle Angle.beq
